@@ -78,6 +78,7 @@ SHAPES = [
     ("3A->B", [({"A": 3}, {"B": 1}, Fr(1))]),
     ("2A+B->C", [({"A": 2, "B": 1}, {"C": 1}, Fr(1))]),
     ("A+B->C;C->A+B", [({"A": 1, "B": 1}, {"C": 1}, Fr(1)), ({"C": 1}, {"A": 1, "B": 1}, Fr(1, 2))]),
+    ("A->B+C;B->C", [({"A": 1}, {"B": 1, "C": 1}, Fr(1)), ({"B": 1}, {"C": 1}, Fr(1, 2))]),  # two products of coefficient one, one of them touched again
 ]
 SINGLE = [({}, {"B": 1}), ({"A": 1}, {"B": 1}), ({"A": 2}, {"B": 1}), ({"A": 1, "B": 1}, {"C": 1}), ({"A": 3}, {"B": 1}), ({"A": 2, "B": 1}, {"C": 1})]
 EQS = [({"A": 2, "B": 1}, {"C": 1}), ({"A": 2}, {"B": 1}), ({"A": 1, "B": 1}, {"C": 1}), ({"A": 1}, {"B": 1}), ({"A": 1}, {"B": 1, "C": 1}), ({"A": 1}, {"B": 2, "C": 1})]
@@ -120,7 +121,7 @@ def bounds(tier):
 def chunks(tier):
     regs = _regs(tier)
     step = 2 if tier == "quick" else 8
-    out = [("A", i) for i in range(len(SINGLE))] + [("E",)] + [("AH", k) for k in range(len(AFTER_OPS))]
+    out = [("A", i) for i in range(len(SINGLE))] + [("E",), ("MS",)] + [("AH", k) for k in range(len(AFTER_OPS))]
     for s in range(len(SHAPES)):
         out.append(("T", s))
         out.append(("RH", s))
@@ -490,6 +491,43 @@ def op_eq(res, ei, ci, wi):
             res.outcomes["equilibrium-wrong-dimension-ACCEPTED"] += 1
             res.violation("C10|Equilibrium|dnu=%+d|wrong-dimension-accepted" % dnu, "Equilibrium(%s, param=%s) was accepted; needs concentration^%d"
                           % (case["equilibrium"], desc, dnu), case, "accepted", "exception")
+
+
+def op_eq_sum(res, ei, ej, ci, sign):
+    """sums and differences of equilibria are equilibria like any other: when one operand carries a plain number although its
+    constant has a dimension (products != reactants) and the other a unit-carrying constant, the result's constant has the wrong
+    dimension and is refused; when every operand is consistent the result is accepted and carries the product / quotient"""
+    env = E()
+    chempy = env["chempy"]
+    (r1, p1), (r2, p2) = EQS[ei], EQS[ej]
+    # distinct species for the second operand, so that nothing cancels
+    r2 = {k.lower(): v for k, v in r2.items()}
+    p2 = {k.lower(): v for k, v in p2.items()}
+    d1 = sum(p1.values()) - sum(r1.values())
+    d2 = sum(p2.values()) - sum(r2.values())
+    K2 = 5.0 * env["conc"][ci] ** d2 if d2 else 5.0
+    case = dict(op="eq_sum", args=[ei, ej, ci, sign], first="%r = %r; 3.0 (plain number)" % (r1, p1), second="%r = %r; 5 %s**%d" % (r2, p2, CONC[ci][0], d2))
+    res.states += 1
+    res.transitions += 1
+    res.evaluations += 1
+    res.nontrivial += 1
+
+    def run():
+        e1 = chempy.Equilibrium(r1, p1, 3.0)
+        e2 = chempy.Equilibrium(r2, p2, K2)
+        return (e1 + e2) if sign > 0 else (e2 - e1)
+
+    got = _obs(run)
+    must_refuse = d1 != 0 and d2 != 0  # (with d2 == 0 both constants are plain numbers: nothing to check a dimension against)
+    if must_refuse:
+        if _isexc(got):
+            res.outcomes["equilibrium-sum-wrong-dimension-refused|" + got[4:]] += 1
+        else:
+            res.outcomes["equilibrium-sum-wrong-dimension-ACCEPTED"] += 1
+            res.violation("C10|Equilibrium.__add__|wrong-dimension-accepted", "(%s) %s (%s) was accepted with constant %r; the sum needs concentration^%d" % (
+                case["first"], "+" if sign > 0 else "subtracted from", case["second"], getattr(got, "param", None), d1 * (1 if sign > 0 else -1) + d2), case, "accepted", "exception")
+    else:
+        res.outcomes["equilibrium-sum-%s" % ("raised|" + got[4:] if _isexc(got) else "accepted")] += 1
 
 
 def op_eq_as_reactions(res, ei, ci, ti, wi):
@@ -1000,6 +1038,96 @@ def op_to_arrays_reject(res, shape, rc, mode, what, wi):
                       % (case["shape"], mode, _reg_text(rc), case["wrong"], got), case, got, "exception")
 
 
+def op_rates_quantities(res, shape, ks, ss):
+    """ReactionSystem.rates evaluated directly with unit-carrying concentrations (no ODE system, no registry): the per-substance
+    rates, converted to mol/m3/s, are the hand rates — and a second evaluation with the same quantity objects gives them again"""
+    env = E()
+    np, chempy = env["np"], env["chempy"]
+    ks = tuple(ks)
+    case = dict(op="rates_quantities", args=[shape, list(ks), ss], shape=SHAPES[shape][0])
+    res.states += 1
+    res.transitions += 2
+    res.evaluations += 2
+    res.nontrivial += 1
+    subs = _substances(shape)
+    hand = _hand_rates(shape, ks)
+    ref = [float(hand[s]) for s in subs]
+
+    def run():
+        rxns = [chempy.Reaction(reac, prod, _kq(mag, n, cj, tj)) for (reac, prod, kappa), (n, k, (cj, tj), mag) in zip(SHAPES[shape][1], _constants(shape, ks))]
+        rsys = chempy.ReactionSystem(rxns, subs)
+        c, _ = _state(ss)
+        V = {s: c[s] for s in subs}
+        out = []
+        for _n in range(2):
+            r = rsys.rates(V)
+            out.append([float(A.si(r[s])[0]) if s in r else 0.0 for s in subs])
+            for s in subs:
+                if s in r and A.si(r[s])[1] != (-3, 0, -1, 0, 0, 1, 0):
+                    raise ValueError("rate of %s has SI exponents %r" % (s, A.si(r[s])[1]))
+        return out
+
+    got = _obs(run)
+    scale = max(abs(r) for r in ref)
+    ok = (not _isexc(got)) and all(all(abs(o - r) <= RTOL * scale for o, r in zip(row, ref)) for row in got)
+    res.outcomes["rates-with-quantities-%s" % ("ok" if ok else "WRONG")] += 1
+    if not ok:
+        res.violation("C10|ReactionSystem.rates|quantities|differs-from-hand-rate", "%s with k = 3 %s**(1-n)/%s, state spelling %d: rates(...) with quantities = %r mol/m3/s (two evaluations), by hand %r" % (
+            case["shape"], CONC[ks[0]][0], TIME[ks[1]][0], ss, got, ref), case, got, ref)
+
+
+def op_many_species(res, nsp, rc, pattern, as_):
+    """a first-order chain over nsp (17..24) species, the initial concentrations written in mixed units by a placement pattern
+    (dict or list of unit-carrying scalars): the state handed to the solver, times the registry's concentration unit, is the
+    state that was given; the physical rate of the first and last species is the hand rate"""
+    env = E()
+    np, chempy, ode = env["np"], env["chempy"], env["ode"]
+    rc = tuple(rc)
+    names = ["X%02d" % i for i in range(nsp)]
+    case = dict(op="many_species", args=[nsp, list(rc), pattern, as_])
+    res.states += 1
+    res.transitions += nsp
+    res.evaluations += 1
+    res.nontrivial += 1
+    ncu = len(CONC)
+    if pattern == "cycle":
+        cis = [i % ncu for i in range(nsp)]
+    elif pattern == "ends-equal":
+        cis = [0] + [1] * (nsp - 2) + [0]
+    else:
+        cis = [3] * nsp
+        cis[nsp // 2] = 0
+    si = [Fr(3 + i, 2) for i in range(nsp)]  # mol/m3
+    fc, ft = _reg_factors(rc)
+
+    def run():
+        rxns = [chempy.Reaction({names[i]: 1}, {names[i + 1]: 1}, float(2 + i) / env["time"][0]) for i in range(nsp - 1)]
+        rsys = chempy.ReactionSystem(rxns, names)
+        odesys, extra = ode.get_odesys(rsys, include_params=True, unit_registry=_registry(rc))
+        qs = [float(v / CONC[ci][1]) * env["conc"][ci] for v, ci in zip(si, cis)]
+        c = dict(zip(names, qs)) if as_ == "dict" else list(qs)
+        x, y, p = odesys.to_arrays(0 * env["time"][0], c, {})
+        y = np.asarray(y, dtype=float).reshape(-1)
+        f = np.asarray(odesys.f_cb(x, y, p), dtype=float).reshape(-1)
+        return list(odesys.names), y, f
+
+    got = _obs(run)
+    if _isexc(got):
+        res.outcomes["many-species-RAISED"] += 1
+        res.violation("C10|get_odesys.to_arrays|many-species|raises", "%d-species chain, registry %r, concentrations as %s in units by pattern %r: %s" % (nsp, _reg_text(rc), as_, pattern, got), case, got, None)
+        return
+    onames, y, f = got
+    ysi = [float(v) * float(fc) for v in y]
+    want = [float(v) for v in si]
+    rate = [float(v) * float(fc / ft) for v in f]
+    want_rate = [-(2 + 0) * want[0]] + [(2 + i - 1) * want[i - 1] - (2 + i) * want[i] for i in range(1, nsp - 1)] + [(2 + nsp - 2) * want[nsp - 2]]
+    ok = onames == names and all(abs(a - b) <= RTOL * abs(b) for a, b in zip(ysi, want)) and all(abs(a - b) <= RTOL * max(abs(b), 1.0) for a, b in zip(rate, want_rate))
+    res.outcomes["many-species-%s" % ("ok" if ok else "WRONG")] += 1
+    if not ok:
+        res.violation("C10|get_odesys.to_arrays|many-species|state-differs-from-given", "%d-species chain, registry %r, concentrations as %s, units by pattern %r: state %r mol/m3 (given %r), rates %r (by hand %r)" % (
+            nsp, _reg_text(rc), as_, pattern, ysi[:4] + ysi[-2:], want[:4] + want[-2:], rate[:2] + rate[-1:], want_rate[:2] + want_rate[-1:]), case, ysi, want)
+
+
 def _layer_T(res, tier, shape):
     regs = _regs(tier)
     for rc in regs:
@@ -1033,6 +1161,9 @@ def run_chunk(chunk, tier):
                 for j in range(-3, 4):
                     if j != dnu:
                         op_eq_exponent(res, ei, ci, j)
+                for ej in range(len(EQS)):
+                    for sign in (1, -1):
+                        op_eq_sum(res, ei, ej, ci, sign)
                 for ti in (0, 1):
                     op_eq_as_reactions(res, ei, ci, ti, None)
                     for wi in range(len(WRONG)):
@@ -1040,6 +1171,18 @@ def run_chunk(chunk, tier):
         res.sample(dict(layer="E", equilibria=[repr(e) for e in EQS]))
     elif kind == "K":
         _layer_K(res, tier, *chunk[1:])
+    elif kind == "MS":
+        for nsp in (16, 17, 18, 24):
+            for rc in [(0, 0, 0, 0), (2, 1, 1, 0)] + SCALED_REGS[:1]:
+                for pattern in ("cycle", "ends-equal", "one-odd"):
+                    for as_ in ("dict", "list"):
+                        op_many_species(res, nsp, rc, pattern, as_)
+        for shape in range(len(SHAPES)):
+            for ci in range(len(CONC)):
+                for ti in range(len(TIME)):
+                    for ss in (3, 5, 7):
+                        op_rates_quantities(res, shape, (ci, ti), ss)
+        res.sample(dict(layer="MS", species=[16, 17, 18, 24], patterns=["cycle", "ends-equal", "one-odd"]))
     elif kind == "KS":  # registries whose base units are scaled units (a number times a unit)
         _layer_K(res, tier, chunk[1], 0, len(SCALED_REGS), regs=SCALED_REGS)
         for rc in SCALED_REGS[:2]:
@@ -1070,7 +1213,7 @@ def run_chunk(chunk, tier):
     return res
 
 
-OPS = dict(integrate_seq=op_integrate_seq, accept_after=op_accept_after, rate_seq=op_rate_seq, accept=op_accept, accept_exponent=op_accept_exponent, eq=op_eq, eq_as_reactions=op_eq_as_reactions, eq_exponent=op_eq_exponent, rate=op_rate, integrate=op_integrate, validate=op_validate, solve=op_solve, to_arrays_reject=op_to_arrays_reject)
+OPS = dict(integrate_seq=op_integrate_seq, accept_after=op_accept_after, rate_seq=op_rate_seq, accept=op_accept, accept_exponent=op_accept_exponent, eq=op_eq, eq_sum=op_eq_sum, many_species=op_many_species, rates_quantities=op_rates_quantities, eq_as_reactions=op_eq_as_reactions, eq_exponent=op_eq_exponent, rate=op_rate, integrate=op_integrate, validate=op_validate, solve=op_solve, to_arrays_reject=op_to_arrays_reject)
 
 
 def replay(case):
